@@ -25,6 +25,9 @@ def run(ctx: Ctx) -> None:
 
 def extra(ctx: Ctx, sweep: dict) -> None:
     pass
+    # code -> spec: the calls of the repository's own test-suite with their variations, judged by spec/Trace_Harvest.tla
+    from .. import harvest
+    harvest.check(ctx, "C07")
 
 
 def replay(path: str) -> int:
